@@ -105,7 +105,20 @@ func (this *badgerWAL) Entries(lo, hi, maxSize uint64) ([]raftpb.Entry, error) {
 		return nil, etcdRaft.ErrUnavailable
 	}
 
-	return this.getEntries(lo, hi, maxSize)
+	entries, err := this.getEntries(lo, hi, maxSize)
+
+	// The raft node reads the log from its own goroutine while the ready loop
+	// may be compacting it (CreateSnapshot). What was read is only valid if
+	// the range has not been compacted since the check above: otherwise it may
+	// start at the snapshot's dummy entry (no payload) or past a deleted prefix.
+	firstIndex, ferr := this.FirstIndex()
+	if ferr != nil {
+		return nil, ferr
+	}
+	if lo < firstIndex {
+		return nil, etcdRaft.ErrCompacted
+	}
+	return entries, err
 }
 
 func (this *badgerWAL) Term(idx uint64) (uint64, error) {
